@@ -15,11 +15,27 @@ func c09Gen(g *G) {
 	g.Emit("c09.run o,o g0+1;w2;a1;a0", "basic")
 	g.Emit("c09.run vl,vo g0+1;w2;c(a1z,a0z)", "vector-gzip-container")
 	g.Emit("c09.run o g0;w1;a0;j;d0;g0;w2;a0", "duplicate-result")
+	// schedules the Go scheduler rarely produces, forced through the yield hooks: the answer is routed while
+	// its caller is still between "sent" and "waiting"; the receive loop is slow; writes are slow
+	g.Emit("c09.run o ycq:2500:1;g0;w1;a0", "yield-caller-held-after-send")
+	g.Emit("c09.run o,b,vl ycq:2000:3;g0+1+2;w3;c(a2z,a0);a1", "yield-caller-held-after-send")
+	g.Emit("c09.run o,o yr*:1500:2;g0+1;w2;a1;a0", "yield-slow-receive-loop")
 	n := g.N(60, 1500)
 	for i := 0; i < n; i++ {
 		k := 1 + r.Intn(g.N(8, 16))
 		kinds := rsKinds(r, k, pool)
 		order := rsPerm(r, k)
+		if r.Intn(3) == 0 {
+			y := fmt.Sprintf("y%s:%d:%d", []string{"cq", "cq", "r*", "wq", "wk"}[r.Intn(5)], 300+r.Intn(2200), 1+r.Intn(k))
+			all := make([]int, k)
+			for j := range all {
+				all[j] = j
+			}
+			plan := []string{y, "g" + rsJoinInts("", all, "+"), fmt.Sprintf("w%d", k)}
+			plan = append(plan, rsAnswerPlan(r, order, []string{"p", "k"})...)
+			g.Emit(fmt.Sprintf("c09.run %s %s", strings.Join(kinds, ","), strings.Join(plan, ";")), "yield-random", fmt.Sprintf("callers=%d", k))
+			continue
+		}
 		all := make([]int, k)
 		for j := range all {
 			all[j] = j
@@ -43,5 +59,5 @@ func c09Gen(g *G) {
 }
 
 func init() {
-	register(&Prop{Name: "c09", Gen: c09Gen, Exec: rsExec("c09"), Judge: rsJudge("c09")})
+	register(&Prop{Name: "c09", Gen: c09Gen, Exec: rsExec("c09"), Judge: rsJudge("c09"), Teardown: rsTeardown})
 }
